@@ -15,7 +15,9 @@ CLAIMED = {
         "clauses (prefix = oldest-first, fits, maximal, within-limit => nothing), of JsonHistoryGC.run (removes only the selected "
         "prefix, in order, refuses unless forced when it would discard more than it keeps, a failing removal does not stop the "
         "rest, nothing removed before an error) and of JsonHistoryGC.files (result sorted oldest-first, never contains a live "
-        "session's file). Every obligation is regenerated from /repo's current source on each run.",
+        "session's file). Every obligation is regenerated from /repo's current source on each run. Bounded stand-in (not counted as proved): the real "
+        "JsonHistoryGC.files / run on real lazyjson files - every directory of <= 4 (thorough 5) files out of {locked live, unlocked old} x {0, 2 commands} x 5 limits: "
+        "no live session's file is offered or removed.",
    note="Assumed/unverified: SQLite backend (SQL executed by the engine), LazyJSON/os calls as declared externals (ghost world), "
         "meaning of `live` given by assumed external contracts (lock flag off, or created before last boot, or empty file => not live), "
         "float timestamps as reals, sequential execution, the dispatch table built in __init__. Trusted: pyvc engine + library models + z3/cvc5.",
@@ -57,7 +59,8 @@ CLAIMED = {
         "or standalone with $XONSH_SUBPROC_CMD_RAISE_ERROR) and returns the terminal before raising; __bool__ <=> returncode == 0; "
         "returncode is 1 without a process else the last stage's; parse_proxy_return decodes int / 3rd element / else 0; "
         "_boolop_contains_subproc sees helpers at any depth (loop invariant); CommandPipeline.__init__ leaves no process handle when a stage cannot be "
-        "spawned (so the pipeline reports failure) and otherwise makes the last stage the pipeline's process. Enum (complete): the @error_raise/@error_ignore rows of the "
+        "spawned (so the pipeline reports failure) and otherwise makes the last stage the pipeline's process; _SubprocChainRaiseWrapper._visit_boolop (the AST pass that inserts the "
+        "check) leaves its nesting flag as it found it on EVERY exit - normal, early return, exception - so a later chain of the same parse is still recognised as outermost. Enum (complete): the @error_raise/@error_ignore rows of the "
         "real alias table. Bounded stand-in (not counted as proved): the real AST wrapper + runtime decision executed on every chain shape "
         "of up to 4 (thorough: 5) commands against reference short-circuit semantics.",
    note="Unverified: that the parser produces BoolOps/helper calls for &&/|| and for text that is / is not valid Python; that a failing "
@@ -84,7 +87,8 @@ CLAIMED = {
         "JSON history rewriters - JsonHistoryFlusher.dump (flush), JsonHistory.delete, JsonHistory.erasedups, JsonHistoryGC.files (unlock): "
         "an existing history file is never opened for writing in place; every os.replace(tmp, target) has tmp created by mkstemp(dir=dirname("
         "target)) in this call, completely written (no failed write) and closed; only own temp files are unlinked; writes only go through "
-        "temp handles. Hence every prefix of the trace (any crash point, any single failing call) leaves each file its complete old or new "
+        "temp handles; raw os.write / os.close on the mkstemp descriptor are outside the discipline (a short write is not an error there): any such call is a failed call "
+        "precondition. Hence every prefix of the trace (any crash point, any single failing call) leaves each file its complete old or new "
         "version. dump additionally keeps the loaded commands as a prefix of what it stages (commands saved earlier are never lost). "
         "SQLite backend (transaction discipline): _xh_sqlite_get_conn opens the connection with NO keyword argument (python's default isolation level; any keyword is a "
         "failed call precondition), hands it out inside exactly one `with conn:` scope and closes it on every path; xh_sqlite_erasedups (loop invariant), "
@@ -120,8 +124,8 @@ CLAIMED = {
         "del_locally / __setitem__ and the real Env._set_item / Env._del_item in thread-local mode never touch G (including the write to a "
         "`sync` partner; the recursion carries a termination variant); Env.__contains__ and Env.__getitem__ agree: `[]` raises KeyError "
         "exactly when `in` is False, with the top-most overlay deciding and DELETE_VAR masking. "
-        "Bounded stand-in (not proved): every nesting of <= 3 (thorough 4) scopes out of 6 forms (kwargs / `other` / overlay / DELETE_VAR mask / new variable) with a normal or "
-        "exceptional exit at each level, an assignment to another variable inside, and an observer thread at the innermost point; views: in, [], get, detype.",
+        "Bounded stand-in (not proved): every nesting of <= 3 (thorough 4) scopes out of 8 forms (kwargs / `other` / both / overlay / DELETE_VAR mask / masked overlay / new variable / a value that fails to convert) with a normal or "
+        "exceptional exit at each level, an assignment to another variable inside, the scoped variable deleted (or assigned then deleted) inside a scope that holds it thread-locally, and an observer thread at the innermost point; views: in, [], get, detype.",
    note="Unverified: preemption between statements of swap / two threads inside _set_item on G; threading.local itself; worker threads "
         "copying the spawner's overrides (get/set_swapped_values); iteration and detype views (C10); $UPDATE_OS_ENVIRON mirroring; swap relies "
         "on stronger clauses of _set_item/_del_item which are now PROVED on the real functions under their side conditions (valid value, no sync partner, variable still "
@@ -160,7 +164,7 @@ CLAIMED = {
         "order through the real setters, loop invariants): on a normal return every stream was named by at most one redirect and holds exactly that one. The three setters on "
         "their own: first non-None store wins, a second one raises XonshError IFF both are non-None, changes nothing and closes the rejected "
         "handle. Enum (complete): all 50 redirect spellings of the real tokenizer tables through the real parser (one redirect token, target "
-        "taken iff one-sided) and the real _redirect_streams decode to the class their stream names denote - all spellings of a class agree. "
+        "taken iff one-sided) and the real _redirect_streams decode to the class their stream names denote - all spellings of a class agree, and a both-streams class hands both streams ONE shared handle (two opens of the same target would overwrite each other). "
         "Bounded stand-in (not counted as proved): real cmds_to_specs on every pipeline of <= 3 (thorough 4) stages x 9 redirect forms x trailing &.",
    note="Unverified: that the OS delivers bytes written to an fd to the file / pipe behind it; SubprocSpec.build as a whole (alias resolution, decorators; resolve_redirects "
         "is verified, _redirect_streams is a ghost function there and checked by the spelling enum), the capture "
@@ -220,7 +224,8 @@ CLAIMED = {
         "dequeued and iterqueue yields exactly the dequeued chunks in order; read_queue dequeues one chunk per call and nothing on a timeout; is_fully_read answers "
         "True only with `closed` set and with emptiness sampled LAST, after the producer thread was seen finished (the only sampling order that is right "
         "under every interleaving); populate_fd_queue queues exactly the non-empty chunks in the order read, stops only at end of stream or on a read "
-        "error, and flags the reader closed after the last chunk is queued. Bounded stand-in (not proved): real $() / !() (.out, .raw_out, iteration) / "
+        "error, and flags the reader closed after the last chunk is queued; QueueReader.__init__ creates the chunk queue UNBOUNDED (queue.Queue() with no argument: a bound lets the producer "
+        "block in put() while the consumer waits for the process - any argument is a failed call precondition). Bounded stand-in (not proved): real $() / !() (.out, .raw_out, iteration) / "
         "@$() on payloads of 0..70000 bytes (thorough 1 MiB) and alias stages writing up to 60000 lines, byte for byte, plus CR/CRLF, stderr separation "
         "and the final stage's return code.",
    note="NOT covered by any contract: thread interleavings themselves (the property's quantifier over schedules) - the is_fully_read clause is the sequential "
@@ -253,12 +258,13 @@ CLAIMED = {
         "invariant over the reversed stack; an outer binding of the same name stays, as in Python); visit_Global adds the names to the module scope "
         "contexts[1] only, at any nesting depth; visit_Import / visit_ImportFrom bind, for every clause, exactly the name Python binds (the alias, else the first dotted "
         "component / the imported name) in the innermost scope only (loop invariants); visit_AnnAssign, visit_NamedExpr, visit_Try bind their target / `except .. as` names "
-        "before the sub-nodes are visited; visit_Delete never binds anything; visit_ClassDef / visit_FunctionDef give the name to the enclosing scope, open a fresh EMPTY scope before "
+        "before the sub-nodes are visited; visit_Delete never binds anything; visit_With / visit_For bind the `as` names of EVERY item (loop invariant over the items; items without `as` bind nothing) / the loop "
+        "target before the body is visited, in the innermost scope only; visit_ClassDef / visit_FunctionDef give the name to the enclosing scope, open a fresh EMPTY scope before "
         "parameters are bound / the body is visited, and close it again. Bounded stand-in (not proved): 12 binding forms x scope depths 0..2 (global: 1..3) x "
         "probe positions + del / parameter / class-body / session-name cases through the real Execer.parse, decision on a probe line `X -l` against Python's "
         "scoping rules.",
    note="Two genuine defects repaired (fix: 2827a8d: a walrus inside an expression statement was not recorded; c760ec2: `import a.b` recorded the dotted path instead of a). Unverified: is_in_scope / the name gathering "
-        "helpers (gather_names, leftmostname), visit_Assign / visit_For / visit_With (their name gathering goes through gather_names / leftmostname - bounded only), the with-body hypothesis on "
+        "helpers (gather_names, leftmostname), visit_Assign (bounded only); in visit_For / visit_With what gather_names / leftmostname return for a target is a ghost function, the with-body hypothesis on "
         "generic_visit (stack depth preserved), ctxupdate's generator argument in visit_FunctionDef (abstracted: assumed to touch the innermost scope only, "
         "which is ctxupdate's own verified contract), the three-phase parse and 'decision before anything runs' (Execer.parse / compile / exec), "
         "_SubprocChainRaiseWrapper. Trusted: pyvc engine + set-slot model + z3/cvc5.",
@@ -269,10 +275,11 @@ CLAIMED = {
         "links ending at i (a link = previous line ends with a continuation, or the text before ends inside an open triple-quoted string) - loop invariant for "
         "the backward walk with a termination variant, for chains of any length; it spans >= 1 lines and stays inside the source (second loop, with "
         "variant). Termination of the wrap-and-reparse loop (Execer._parse_ctx_free._try_parse): every iteration leaves the loop or consumes one unit of a retry budget "
-        "fixed before it (variant max_retries, invariant max_retries >= 0; the try-body abstracted - it never assigns the budget). "
+        "fixed before it (variant max_retries, invariant max_retries >= 0; the try-body abstracted - it never assigns the budget). tools._is_not_lparen_and_rparen: a `)` is a break "
+        "only when EVERY open bracket is a plain `(` - inside any @( / $( / !( ... group it never is, whatever is nested on top. "
         "Bounded stand-ins (not proved): 11 command lines x 1..4 (thorough 5) physical lines x 7 statement positions (top level, after `;`, if / for-in-def "
         "/ try / with / while-in-if-in-def) x {no chain, &&, and, ||}: the bare source and the hand-wrapped ![...] source compile to the same program through the "
-        "real Execer; C02's probe programs (names bound only in inner scopes do not stop the wrap).",
+        "real Execer; C02's probe programs (names bound only in inner scopes do not stop the wrap); command lines include a Python call inside @( ).",
    note="KNOWN FINDING (recorded): a chain segment that is also valid Python (`ls -l /tmp && ...`) is wrapped without in_boolop=True. Unverified: termination of the "
         "parser / lexer / helper calls inside the retry loop's body and its depth-1 recursion (so 'for all input strings' is proved only modulo those), subproc_toks / find_next_break / "
         "_abs_lexpos / balanced_parens, replace_logical_line, strip_continuation_comments, _have_open_triple_quotes (a ghost predicate here), "
@@ -284,8 +291,8 @@ CLAIMED = {
         "with tilde expansion off the result is exactly the ($VAR-expanded) word; a plain word gets exactly one tilde expansion; for `key=value` the key is expanded, the `=` kept, "
         "and the result is key' = ':'.join(map(expanduser, value.split(':'))) - EACH colon-separated field expanded on its own, none dropped, added or merged (map over a sequence "
         "value is the uninterpreted sequence map_f(xs) with its two defining facts, so code and clause denote the same term). @() injection: ensure_str_or_callable returns a string or callable untouched (bytes: os.fsdecode); list_of_strs_or_callables "
-        "turns a string into exactly one argument equal to it and a list of strings into one argument per element, in order, each untouched. "
-        "Bounded stand-in (not proved): 40 argument strings "
+        "turns ANY string - the empty one included - into exactly one argument equal to it (separate contract #string) and a list of strings into one argument per element, in order, each untouched (#list). "
+        "Bounded stand-in (not proved): 41 argument strings (the empty string included) "
         "(spaces, quotes, backslashes, newlines, glob and shell metacharacters, tilde / assignment shapes) x up to 8 delivery forms (@(expr), @([list]), r'..', r\"\"\"..\"\"\", plain, "
         "triple-quoted, f-string, bare word) x 3 positions through the real execer to a recording callable alias, plus a real child process for a subset.",
    note="KNOWN FINDING (recorded): a value injected right next to a word (`w@('*')`) is globbed / tilde-expanded. Unverified: the parser actions that assemble the argument list (_subproc_cliargs, p_subproc_atom_*, p_string_literal - bounded only), list_of_list_of_strs_outer_product (see the known finding), macro raw-text slicing, SubprocSpec.resolve_args_list / _fix_null_cmd_bytes, @$() re-splitting, expandvars itself, "
